@@ -110,7 +110,7 @@ def in_contract(h):
     for op in h:
         w = op.split()
         k = w[0]
-        if k in ("new", "close", "gc", "thr"):
+        if k in ("new", "close", "gc", "thr") or k[0] == "v":
             if k == "new":
                 T = Ideal()
                 quit_seen = False
@@ -308,12 +308,49 @@ def gen_history(rng, n, profile=None):
     return lines
 
 
+def gen_leaf_history(rng):
+    """leaf values only: boxed integers / floats (chunks of 100 slots + free lists) and strings (16 cache classes of 128):
+    bursts that cross a chunk boundary or overflow a cache class, releases in any order, re-allocation from the lists"""
+    lines = ["new"]
+    held = []
+    n = 0
+    for _ in range(rng.randrange(3, 9)):
+        z = rng.random()
+        if z < 0.30:
+            kind = rng.choice(["vint", "vflt"])
+            for _ in range(rng.choice([1, 3, 40, 99, 100, 101, 130])):
+                lines.append(kind)
+                held.append(n)
+                n += 1
+        elif z < 0.55:
+            ln = rng.choice([1, 5, 14, 15, 16, 30, 31, 32, 100, 238, 239, 240, 241, 500])
+            for _ in range(rng.choice([1, 2, 20, 127, 128, 129, 140])):
+                lines.append("vstr %d" % ln)
+                held.append(n)
+                n += 1
+        elif z < 0.9 and held:
+            k = rng.choice([1, len(held) // 2, len(held)])
+            rng.shuffle(held)
+            for _ in range(k):
+                lines.append("vrel %d" % held.pop())
+        else:
+            lines.append("vrel %d" % rng.randrange(n + 2))        # possibly not held: rejected
+            held = [x for x in held if ("vrel %d" % x) != lines[-1]]
+        if len(lines) > 700:
+            break
+    lines.append("close")
+    return lines
+
+
 def exhaustive_small(tier):
     """every sequence over a small alphabet after fixed prefixes (one object older than the other, or both young)"""
     alpha_full = ["gc 0", "gc 1", "gc 2", "link 0 1", "link 1 0", "link 1 1", "unlink 1 0", "drop 0", "drop 1", "root 0",
                   "alloc a", "clear 1", "relink 1 0 0", "take 1 0", "call cyc 1 0", "call wrap 0 1", "call keep 1 0", "call fail 0 1"]
     alpha_red = ["gc 0", "gc 2", "link 1 0", "link 1 1", "link 0 1", "drop 1", "drop 0"]
-    prefixes = [["new", "alloc m", "alloc m"], ["new", "alloc m", "gc 0", "alloc m"], ["new", "alloc a", "gc 1", "alloc a"]]
+    # map and array holders/elements symmetrically (free_mapval / free_arrval are twins): every prefix in both kinds and mixed
+    prefixes = [["new", "alloc m", "alloc m"], ["new", "alloc m", "gc 0", "alloc m"], ["new", "alloc a", "gc 1", "alloc a"],
+                ["new", "alloc a", "alloc a"], ["new", "alloc a", "gc 0", "alloc a"], ["new", "alloc m", "gc 1", "alloc m"],
+                ["new", "alloc m", "gc 0", "alloc a"], ["new", "alloc a", "gc 0", "alloc m"]]
     out = []
     for pre in prefixes:
         if tier == "quick":
@@ -366,8 +403,11 @@ def oracle(ops, outs):
     Returns a list of (op index, message)."""
     bad = []
     holders, kids, nxt = {}, {}, 0
+    vleaf = {}
     for i, op in enumerate(ops):
         w = op.split()
+        if w[0] == "new":
+            vleaf = {}
         if i >= len(outs):
             bad.append((i, "no output for this operation (crash or hang)"))
             break
@@ -381,6 +421,34 @@ def oracle(ops, outs):
                 bad.append((i, "close produced %r" % line))
             elif int(m.group(1)) != 0 or m.group(2).strip():
                 bad.append((i, "closing the runtime left host blocks behind: %s" % line))
+            continue
+        if w[0][0] == "v":
+            # leaf values (boxed ints, floats, strings) held by the host: the blocks the runtime has from the host are the
+            # chunks behind the int/float slots, the strings in use and the strings parked in the cache - nothing else
+            m = re.match(r"^r=(\S+) blk=(-?\d+) ic=(\d+) if=(\d+) rc=(\d+) rf=(\d+) sc=([\d,]+)$", line)
+            if not m:
+                bad.append((i, "unparsable output %r" % line[:120]))
+                break
+            if w[0] == "new":
+                pass
+            if m.group(1) != "ERR":
+                if w[0] == "vrel":
+                    kind = vleaf.pop(int(w[1]), None)
+                    if kind is None:
+                        bad.append((i, "release of a leaf value that is not held reported as done"))
+                else:
+                    vleaf[int(m.group(1))] = w[0]
+            blk, ic, ifr, rc, rfr = (int(m.group(j)) for j in range(2, 7))
+            sc = [int(x) for x in m.group(7).split(",")]
+            nstr = sum(1 for x in vleaf.values() if x == "vstr")
+            if blk != ic + rc + nstr + sum(sc):
+                bad.append((i, "host blocks held by the runtime: %d, but %d int chunk(s) + %d float chunk(s) + %d string(s) in use + %d cached string(s) "
+                               "(a block was lost or is counted twice)" % (blk, ic, rc, nstr, sum(sc))))
+            if sum(1 for x in vleaf.values() if x == "vint") + ifr != 100 * ic or sum(1 for x in vleaf.values() if x == "vflt") + rfr != 100 * rc:
+                bad.append((i, "slots in use + slots on the free list differ from 100 per chunk: ints %d+%d vs %d chunk(s), floats %d+%d vs %d chunk(s)" % (
+                    sum(1 for x in vleaf.values() if x == "vint"), ifr, ic, sum(1 for x in vleaf.values() if x == "vflt"), rfr, rc)))
+            if bad:
+                break
             continue
         d = parse_dump(line)
         if d is None:
@@ -671,6 +739,7 @@ def api_level(ctx, exe, histories):
     status = "ok"
     mouts = []
     first_orc = None
+    first_orc_batch = None
     first_corr = None
     for res, st in results:
         if st != "ok" and status == "ok":
@@ -679,6 +748,7 @@ def api_level(ctx, exe, histories):
             mouts.append(mo)
             if orc and first_orc is None:
                 first_orc = h
+                first_orc_batch = [x[0] for x in res]
             if dd is not None and first_corr is None:
                 first_corr = h
         if st != "ok" and first_orc is None:
@@ -692,6 +762,27 @@ def api_level(ctx, exe, histories):
                 ctx.problem("corr", "a batch of histories ended with status %s but no single history reproduces it" % st,
                             "\n".join(l for h, *_ in res for l in h)[:200000], found_input=False)
     # (1) the property itself, evaluated on the implementation: a hit is a concrete failing input
+    if first_orc is not None and first_orc_batch is not None:
+        r0 = one_history(ctx, exe, first_orc, wd=60)
+        if r0["st"] == "ok" and not r0["orc"]:
+            # not reproducible alone: either an earlier history of the batch is the cause, or the harness was starved
+            # (its per-operation watchdog fired on a loaded machine).  Run the batch again with a generous watchdog.
+            lines = [l for h in first_orc_batch for l in h]
+            cout, mout, st2, cerr = run_both(ctx, exe, lines, wd=120)
+            pos, again = 0, None
+            for h in first_orc_batch:
+                co = cout[pos:pos + len(h)]
+                pos += len(h)
+                if oracle(h, co):
+                    again = h
+                    break
+            if again is None and st2 == "ok":
+                ctx.log("API level: a batch failed once and is clean when run again (watchdog on a loaded machine): not a finding")
+                first_orc = None
+                if status != "ok":
+                    status = "ok"
+            elif again is not None:
+                first_orc = again
     if first_orc is not None:
         def fails_prop(sub):
             if not in_contract(normalise(sub)):
@@ -805,8 +896,10 @@ def gen_abstract(rng, n):
             ops.append(("copy", v, w, rng.choice([0, 0, 0, 1, 2])))   # 1: the value travels through a call and its return, 2: it is stored through a by-reference parameter (hawk_rtx_setrefval in hawk_rtx_evalcall)
         elif k < 0.73:
             ops.append(("getchild", v, w, rng.randrange(4)))
-        elif k < 0.74:
-            ops.append(("splitinto", v))                         # a built-in creates a container and stores it through a reference to an element
+        elif k < 0.735:
+            ops.append(("splitinto", v))
+        elif k < 0.765:
+            ops.append(("asort", v, rng.random() < 0.7))        # asort / asorti into a second container: a built-in's result as a holder of the elements                         # a built-in creates a container and stores it through a reference to an element
         elif k < 0.87:
             ops.append(("nil", v))
             young.discard(v)
@@ -891,6 +984,7 @@ def render(aops):
     T = Ideal()
     fullgc = [False]
     churn2_done = [False]
+    sorted_var = [None]                   # what the extra variable vs_ (destination of asort/asorti) holds
     for _ in range(PREALLOC_CLI):
         T.alloc()
 
@@ -946,6 +1040,8 @@ def render(aops):
             a = (k, a[1], pick(a[2], lambda i: bool(slots[i]))) + tuple(a[3:])
         elif k in ("clear", "splitinto"):
             a = (k, pick(a[1], lambda i: True))
+        elif k == "asort":
+            a = (k, pick(a[1], lambda i: bool(slots[i]) and not isarr[i]), a[2])
         if k == "new":
             v, how = a[1], a[2]
             old = var[v]
@@ -1068,6 +1164,28 @@ def render(aops):
             model += ["q alloc m", "q link %d %d" % (p, i), "drop %d" % i]     # fnc_split: makemapval + refup, setrefval (element), refdown
             T.holders[i] -= 1
             stmts.append('vtmp_ = split("p q r", v%d[%d]);' % (a[1], key))
+        elif k == "asort":
+            p = var[a[1]]
+            if p is None or not slots[p] or isarr[p]:
+                continue
+            if a[2] and len(slots[p]) != 1:
+                a = (a[0], a[1], False)                # two containers cannot be compared with each other: asorti then
+            i = nid[0]
+            nid[0] += 1
+            T.alloc()
+            slots[i] = []
+            isarr[i] = False
+            model.append("q alloc m")                  # fnc_asort: the result map, held by the destination variable vs_
+            if a[2]:
+                for _, c in slots[p]:                  # asort: the result refers to every element of the source
+                    model.append("q link %d %d" % (i, c))
+                    T.kids[i].append(c)
+            if sorted_var[0] is not None:
+                model.append("q drop %d" % sorted_var[0])
+                T.holders[sorted_var[0]] -= 1
+            sorted_var[0] = i
+            model.append("thr 0 -1")
+            stmts.append("vtmp_ = %s(v%d, vs_);" % ("asort" if a[2] else "asorti", a[1]))
         elif k == "getchild":
             p = var[a[2]]
             if p is None or not slots[p]:
@@ -1175,7 +1293,7 @@ def render(aops):
         status()
     # variables that were dropped while others still refer to their objects are handled by the model;
     # `slots` of objects that died are never used again because no variable names them
-    names = ", ".join("v%d" % i for i in range(NVARS)) + ", vzero, vtmp_, i_, t_"
+    names = ", ".join("v%d" % i for i in range(NVARS)) + ", vzero, vtmp_, i_, t_, vs_"
     body = "  vzero = 0;\n" + "\n".join("  " + s for s in stmts)
     if storage == "global":      # variables in the global slots of the runtime stack (released by refdown_globals)
         prog = "@global " + names + ";\n" + PRELUDE + "BEGIN {\n" + body + "\n}\n"
@@ -1678,6 +1796,8 @@ def run(ctx):
     nhist = 3000 if ctx.tier == "quick" else 80000
     for _ in range(nhist):
         histories.append(gen_history(rng, rng.randrange(4, 45)))
+    for _ in range(120 if ctx.tier == "quick" else 3000):
+        histories.append(gen_leaf_history(rng))
     ctx.log("generated %d histories" % len(histories))
     evaluations, status, mouts, api_corr = api_level(ctx, exe, histories)
     ctx.log("API level done: %d ops, status %s" % (evaluations, status))
@@ -1765,7 +1885,9 @@ def run(ctx):
                     "hawk::gcrefs of every variable, of the first container element of every variable's container (read back through the container; elements go to the smallest free index from 0) and the pressure counters after every statement; stores/copies also through user-function calls; exit/error endings strike in 13 expression contexts (later call arguments after fresh strings/maps, built-ins, nested frames with locals, for-in, print, concatenation, index expressions). distinct_nontrivial rule: " + NONTRIVIAL_RULE +
                     " Further families: allocation loops (`churn`) that trigger collections by pressure alone, also with the default "
                     "thresholds; containers built by hawk::array(x,..)/hawk::map(k,x,..), stores through hawk::call; API level: "
-                    "hawk_rtx_makemapvalwithdata, elements fetched with getmapvalfld/getarrvalfld/the map iterator (`take`); `call f a b`: the host calls "
+                    "leaf-value histories (vint/vflt/vstr/vrel: boxed ints and floats in chunks of 100 with free lists, strings with the 16x128 cache): the "
+                    "host-block count of the counting allocator, chunk counts, free-list lengths and cache counters after every op compared with HawkModel.GcVal "
+                    "and checked against blocks = chunks + strings in use + cached strings; hawk_rtx_makemapvalwithdata, elements fetched with getmapvalfld/getarrvalfld/the map iterator (`take`); `call f a b`: the host calls "
                     "one of 7 hawk functions with hawk_rtx_callwithbcstr (frame = arguments + locals + return-value slot as holders; bodies return an "
                     "argument, store one argument into the other, return a new container, leave a self-referring local behind, end by a run-time "
                     "error, end by exit), compared state by state with HawkModel.GcCall; language level also by-reference parameters (setrefval) and "
@@ -1782,7 +1904,8 @@ def run(ctx):
                     trusted=["sentinels, number of generations, initial thresholds: extracted by extract/gc_const.py on every run (Gen/GcConst.lean, "
                              "Props consts_match_source); the same extractor checks the textual shape of gc_collect_garbage_in_generation / _auto / gc_calloc_val",
                              "val.c refcount/collector modelled by hand in HawkModel/Gc.lean: containers only (leaf values, the str/mbs/ref "
-                             "caches and the int/flt chunk free lists are 'freed' as far as the model goes; their integrity is left to ASan)",
+                             "caches: int/flt chunks + free lists and the string cache are modelled in HawkModel/GcVal.lean for values the host holds directly; "
+                             "values inside containers, the mbs and ref caches are not)",
                              "order inside the generation lists and map iteration order are not modelled (only membership is compared)",
                              "a finalised shell leaves the model heap before, in the C after, its elements are visited",
                              "API harness writes gc.threshold directly; hawk::gc_set_threshold itself is exercised at the CLI level only",
